@@ -361,6 +361,9 @@ where
                 format!("number {n} missing in tree"),
             )));
         }
+        if inserted.is_empty() {
+            return fail(span, "tree must have at least one leaf");
+        }
         Ok((input, res))
     }
 }
